@@ -253,8 +253,9 @@ def run(ctx: Ctx):
         "header values contain no CR/LF; HeaderSet items are RFC 7230 tokens (no quoting in to_header)",
         "an entry whose value list is empty (only setlist(k, []) / setlistdefault(k) create one) may or may not count as a key: "
         "reads are accepted in either view, but never an exception other than the documented KeyError",
-        "HeaderSet item assignment hs[i] = x where x equals (up to case) an item at another index is outside the documented model "
-        "and is not exercised; copy.copy(HeaderSet) is not claimed (no documented copy)",
+        "HeaderSet item assignment has the ordered-set meaning: hs[i] = x puts x at position i and holds it once (another member "
+        "with that name, up to case, is dropped; the member's own name or a case variant replaces the spelling in place); "
+        "copy.copy(HeaderSet) is not claimed (no documented copy)",
         "get(type=int) is probed with digit strings / non-numeric strings only (no signs, blanks, underscores)",
         "equality of Headers is judged only by: same lines => equal, equal => same set of (lower name, value)",
         "equality of the MultiDict family is dict equality of key -> value list (key order irrelevant, as for any dict); for every "
@@ -271,10 +272,16 @@ def run(ctx: Ctx):
     mcs = [lambda kind=kind: ctx.model_check(AREA, "MCQ", f"MCQ_{kind}", timeout=900, workers=2 * w if kind == "Headers" else w)
            for kind in KINDS]
     mcs.append(lambda: ctx.model_check(AREA, "MCHS", "HeaderSetImpl_fixed", timeout=600, workers=2))
+    mcs.append(lambda: tlc.run_tlc(AREA, "MCHS", "HeaderSetImpl_preassign", workers=2, tmp=ctx.tmp, allow_violation=True))
     mcs.append(lambda: tlc.run_tlc(AREA, "MCHS", "HeaderSetImpl_orig", workers=2, tmp=ctx.tmp, allow_violation=True))
     cfgs = [(k, f"MCQ_{k}_x") for k in KINDS] if q else [(k, f"MCT_{k}_x") for k in KINDS]
     res = _par(ctx, mcs + export_fns(ctx, cfgs))      # model checks and exports side by side
     r, exported = res[len(mcs) - 1], res[len(mcs):]
+    ra = res[len(mcs) - 2]
+    ctx.notes["pre_fix_headerset_item_assignment_model_violates"] = ra.invariant_violated
+    if not ra.invariant_violated:
+        raise tlc.MachineryError("the HeaderSet model with the pre-fix item assignment (duplicate kept in the list) no longer "
+                                 "violates Refines")
     if not q:
         for cfg in ("MCT_MultiDict", "MCT_Headers", "MCT_HeaderSet"):
             ctx.model_check(AREA, "MCQ", cfg, timeout=3000)
@@ -286,6 +293,10 @@ def run(ctx: Ctx):
     jobs = export_walks(ctx, cfgs, maxlen=30 if q else 40, exported=exported)
     # 3. code -> spec: seeded random scenarios
     jobs += random_jobs(ctx, 320 if q else 3000, 12 if q else 16)
+    pos = C.positional_jobs(random.Random(ctx.seed + 17), 90 if q else None)     # boundary indices, deliberately
+    ctx.notes["positional_boundary_scenarios"] = len(pos)
+    ctx.nontrivial.update(("positional", n) for n in range(len(pos)))
+    jobs += pos
     judge_scripts(ctx, jobs)
     # 4. code -> spec: the container sessions of the repository's own tests
     repo_test_traces(ctx, files, recorded=recording.result())
